@@ -37,6 +37,7 @@ type fileState struct {
 	imports map[string]string
 	chans   bool
 	lens    map[string]bool
+	hooks   []hookSpec
 }
 
 func main() {
@@ -94,7 +95,7 @@ func main() {
 					src = filepath.Join(*root, src)
 				}
 				replace[filepath.Join(*repo, f[1])] = src
-			case "import", "chan":
+			case "import", "chan", "hookfn":
 				ms, err := filepath.Glob(filepath.Join(*repo, f[1]))
 				if err != nil || len(ms) == 0 {
 					die("%s:%d: glob %s matches nothing", *spec, ln+1, f[1])
@@ -106,6 +107,10 @@ func main() {
 					st := get(m)
 					if f[0] == "chan" {
 						st.chans = true
+					}
+					if f[0] == "hookfn" {
+						st.hooks = append(st.hooks, parseHookArgs(f[2:]))
+						continue
 					}
 					for _, kv := range f[2:] {
 						k, v, ok := strings.Cut(kv, "=")
@@ -145,6 +150,14 @@ func main() {
 				changed = true
 				addImport(f, "github.com/nspcc-dev/neofs-node/verif/shim/vchan")
 			}
+		}
+		if len(st.hooks) > 0 && applyHooks(f, st.hooks) {
+			changed = true
+			addImport(f, "github.com/nspcc-dev/neofs-node/verif/shim/vhook")
+			f.Decls = append(f.Decls, &ast.GenDecl{Tok: token.VAR, Specs: []ast.Spec{&ast.ValueSpec{
+				Names:  []*ast.Ident{ast.NewIdent("_")},
+				Values: []ast.Expr{&ast.IndexExpr{X: &ast.SelectorExpr{X: ast.NewIdent("vhook"), Sel: ast.NewIdent("As")}, Index: ast.NewIdent("int")}},
+			}}})
 		}
 		for _, imp := range f.Imports {
 			old, _ := strconv.Unquote(imp.Path.Value)
